@@ -20,10 +20,8 @@ from props import wirelib as W
 COQ_FILES = ["PoolCap/Model.v", "PoolCap/Proofs.v", "PoolCap/Props.v"]
 PRE = "From PV Require Import PoolCap.Model.\nFrom Coq Require Import List. Import ListNotations.\n"
 F14_KEY = "F14-intercept-hold"
-F14_TEXT = ("an intercepted query sent with the extended protocol (Parse/Bind/Execute/Sync) as the first message of a transaction "
-            "is answered from inside the transaction loop (client.rs Intercept verdict at 'S' then `continue`): the client is idle, "
-            "yet its server connection stays checked out until its next message — with pool_size 1 every other client gets "
-            "'could not get connection from the pool'")
+F14_TEXT = ("regression of F14 (fixed by a7d476c): an intercepted query sent with the extended protocol (Parse/Bind/Execute/Sync) as the first "
+            "message of a transaction takes a server connection and keeps it while the client is idle outside a transaction")
 PLUG = """[plugins.intercept]
 enabled = true
 [plugins.intercept.queries.0]
@@ -124,8 +122,7 @@ class Mirror:
         if k == "SessionModeKeep":
             return self.st(op[1])[0] == "Holding" and self.session
         if k == "InterceptHold":
-            s = self.st(op[1])
-            return s[0] == "Holding" and s[2] in ("Fresh", "IdleHeld")
+            return False   # mutant op (code before a7d476c): never enabled in the model of the code that exists
         if k == "ConnDied":
             return (op[1] in self.idleq or op[1] in [s for s, _ in self.held]) and op[1] not in self.dead
         if k == "Reap":
@@ -192,7 +189,7 @@ def coq_op(op):
 
 
 def coq_cfg(cfg):
-    return "(mkConfig %d %d %s %s)" % (cfg["pool_size"], cfg.get("min_idle", 0), "Fifo" if cfg["fifo"] else "Lifo", "true" if cfg["session"] else "false")
+    return "(mkConfig %d %d %s %s false)" % (cfg["pool_size"], cfg.get("min_idle", 0), "Fifo" if cfg["fifo"] else "Lifo", "true" if cfg["session"] else "false")
 
 
 def _unhash(x):
@@ -237,6 +234,7 @@ class Plan:
         self.last_tag_at = []  # per observation point: copy of begin_tag
         self.failed = set()  # clients whose transaction is in the failed state
         self.nfail = {}      # client -> checkout failures so far (checkout_failure_limit)
+        self.intercepted = set()  # clients that got an intercepted reply since the last observation
         for c in range(nclients):
             self.steps.append({"op": "connect", "c": self.name(c), "params": {"user": "u", "database": "p", "application_name": self.name(c)}, "password": "pw"})
         # the first client to connect makes pgcat validate the pool (pool.rs validate(): one bb8 get(), server
@@ -326,10 +324,9 @@ class Plan:
                        {"op": "wait_waiting", "n": len(m.waiters) + len(m.woken), "timeout_ms": 1500},
                        {"op": "sleep", "ms": 25}, {"op": "snapshot", "label": label}]
         o = {"label": label, "nops": len(self.ops), "gone": self.gone_expected}
-        if not self.m.session:
-            idle_holders = [c for c in range(self.n + 8) if self.m.st(c)[0] == "Holding" and self.m.st(c)[2] == "IdleHeld"]
-            if idle_holders:
-                o["f14"] = idle_holders
+        if self.intercepted:
+            o["f14"] = sorted(self.intercepted)   # regression point of F14: nothing may be in use on their behalf
+            self.intercepted = set()
         if extra:
             o.update(extra)
         self.obs.append(o)
@@ -351,7 +348,14 @@ class Plan:
             msgs = [{"t": "Q", "sql": "SELECT 1 /*mock: close*/ /*%s*/" % t}]
         elif kind == "intercept":
             msgs = [{"t": "P", "name": "", "sql": "select 42 as a"}, {"t": "B", "portal": "", "name": ""}, {"t": "E", "portal": "", "max": 0}, {"t": "S"}]
-        holding = self.m.st(c)[0] == "Holding"   # IdleHeld (session mode / F14): no checkout
+        holding = self.m.st(c)[0] == "Holding"   # IdleHeld (session mode): no checkout
+        if kind == "intercept":
+            # answered at its Sync: by the outer loop without a checkout (client.rs 1077-1085), or, by a session-mode
+            # holder, inside the transaction loop of the connection it keeps anyway: no model op either way
+            self.steps += [{"op": "send", "c": nm, "msgs": msgs}, {"op": "recv", "c": nm, "until": "Z", "timeout_ms": 3000, "label": t}]
+            self.replies.append((nm, t, "fake"))
+            self.intercepted.add(c)
+            return
         if holding:
             self.intent[c] = {"kind": kind, "tag": t}
             self.steps += [{"op": "send", "c": nm, "msgs": msgs}, {"op": "recv", "c": nm, "until": "Z", "timeout_ms": 3000, "label": t}]
@@ -743,6 +747,8 @@ def compare1(plan_d, coq_views, res, tolerant):
             problems.append(("monitor-bound", "%s: bb8 connections %d > pool_size %d" % (lab, srv["connections"], psize)))
         if be["max_open_settled"] > psize or len(be["open"]) > psize:
             problems.append(("monitor-bound", "%s: %d backend sessions open (settled max %d) > pool_size %d" % (lab, len(be["open"]), be["max_open_settled"], psize)))
+        if "inuse_must_be" in o and srv["connections"] - srv["idle"] != o["inuse_must_be"]:
+            problems.append(("monitor-idle-hold", "%s: %d connections in use after an intercepted batch, must be %d" % (lab, srv["connections"] - srv["idle"], o["inuse_must_be"])))
         if o.get("quiet") and srv["connections"] != srv["idle"]:
             problems.append(("monitor-leak", "%s: all clients gone, yet %d of %d connections in use" % (lab, srv["connections"] - srv["idle"], srv["connections"])))
         if o.get("probe") and (o["probe_ok"] != psize or srv["connections"] - srv["idle"] != psize):
@@ -791,10 +797,8 @@ def compare1(plan_d, coq_views, res, tolerant):
         n_model_intxn = len([1 for c, sd in intxn_model.items() if sd not in dead])
         if len(intxn_impl) != n_model_intxn:
             problems.append(("diff", "%s: %d backend sessions in a transaction, model %d" % (lab, len(intxn_impl), n_model_intxn)))
-        if o.get("f14"):
-            inuse = srv["connections"] - srv["idle"]
-            if inuse >= len(held) and inuse > len(intxn_impl):
-                f14_seen.append((lab, o["f14"]))
+        if o.get("f14") and srv["connections"] - srv["idle"] > len(held):
+            f14_seen.append((lab, o["f14"]))
     info["soft_waiting_mismatch"] = len(soft)
     if problems:
         problems += soft
@@ -846,15 +850,16 @@ def scripted_plans(run):
         p.in_txn(0, "badclose"); p.observe("s3")
         p.in_txn(2, "commit"); p.observe("s4")
         p.finish(); out.append(p)
-    # F14
+    # F14 regression (fixed by a7d476c): intercepted batches take no server; the next client is served at once
     for ps in (1, 2):
         p = Plan({"pool_size": ps, "session": False, "fifo": False, "connect_timeout": 300, "plugin": True}, rng, ps + 1)
         p.actions = ["f14"]
         for c in range(ps):
-            p.first_message(c, "intercept"); p.observe("i%d" % c)
-        p.first_message(ps, "single"); p.observe("w"); p.timeout_waiters(); p.settle(); p.observe("t")
-        p.first_message(0, "single"); p.observe("r")
-        p.first_message(ps, "single"); p.observe("u")
+            p.first_message(c, "intercept"); p.observe("i%d" % c, {"inuse_must_be": 0})
+        p.first_message(ps, "single"); p.observe("b", {"inuse_must_be": 0})     # client b is served, not timed out
+        p.first_message(ps, "begin"); p.observe("b2")
+        p.first_message(0, "intercept"); p.observe("i", {"inuse_must_be": 1})
+        p.in_txn(ps, "commit"); p.observe("u", {"inuse_must_be": 0})
         p.finish(); out.append(p)
     # checkout_failure_limit: the second failed checkout ends the client task; nothing is held by it
     p = Plan({"pool_size": 1, "session": False, "fifo": False, "connect_timeout": 300, "plugin": False, "checkout_failure_limit": 2}, rng, 2)
@@ -937,6 +942,9 @@ def anchors():
     for pat in ("mem::forget", "ManuallyDrop", "Box::leak", ".leak()"):
         if pat in cl:
             bad.append("client.rs: %s appears (a guard could outlive its task)" % pat)
+    a, b = cl.find("// Check on plugin results."), cl.find("pool.wait_paused().await;")
+    if not (0 < a < b and "PluginOutput::Intercept" in cl[a:b] and "continue;" in cl[a:b]):
+        bad.append("client.rs: an Intercept verdict stored at Parse is no longer answered before wait_paused()/the checkout (F14 repair a7d476c)")
     i = cl.find("let mut reference = connection.0;")
     j = cl.find("Releasing server back into the pool", i)
     if i > 0 and j > i:
@@ -1044,7 +1052,7 @@ def f14_status():
 def check(run):
     quick = run.tier == "quick"
     run.assumptions += [
-        "Coq 8.16.1 kernel + vm_compute; no axioms (Print Assumptions: closed under the global context for all 11 theorems)",
+        "Coq 8.16.1 kernel + vm_compute; no axioms (Print Assumptions: closed under the global context for all 11 theorems; c04_no_idle_hold is stated for the code that exists (f14_mutant = false), the pre-a7d476c code is the mutant op InterceptHold with c04_no_idle_hold_mutant_refuted)",
         "bb8 0.8.6 (inner.rs get/put_back/add_connection, internals.rs PoolInternals/approvals/Getting) behaves as coq/PoolCap/Model.v's environment model: exercised, not proved",
         "tokio 1.29.1 Notify: FIFO wait list, one stored permit, notification passed on when a notified waiter is dropped; tokio::time::timeout polls the inner future first",
         "Rust drops the local `reference: PooledConnection` on every return / ? / unwind of Client::handle (language semantics); tokio isolates a panicking task",
@@ -1128,15 +1136,15 @@ def check(run):
                           found_input=True)
         if len(samples) < 4 and p.actions and pi >= 6:
             samples.append({"cfg": p.cfg, "actions": [str(a) for a in p.actions][:14], "ops": [coq_op(o) for o in p.ops][:25], "final_view": str(views[-1][1])})
-    # the F14 class
+    # F14 (fixed): seeing it again is a violation unless known_findings still lists it as open
     if f14_confirmed:
-        st = f14_status()
         pi, f14 = f14_confirmed[0]
-        if st == "fixed":
-            run.violation("counterexample", "F14 (recorded as fixed) is back: " + F14_TEXT, {"plan": plan_dict(plans[pi]), "scenario": scenario_of(plans[pi]), "where": f14})
+        if f14_status() == "known":
+            run.known_finding(F14_TEXT, key=F14_KEY)
         else:
-            run.known_finding(F14_TEXT + " [class: known_intercept_hold ops = true; theorem c04_no_idle_hold is guarded by it, witness c04_no_idle_hold_refuted; seen in %d scenarios]" % len(f14_confirmed), key=F14_KEY)
-    run.cov["f14_scenarios_confirming"] = len(f14_confirmed)
+            run.violation("counterexample", F14_TEXT, {"plan": plan_dict(plans[pi]), "scenario": scenario_of(plans[pi]), "where": f14})
+    run.cov["f14_regressions_seen"] = len(f14_confirmed)
+    run.cov["f14_regression_points_checked"] = sum(1 for p in plans for o in p.obs if o.get("f14"))
 
     # soak
     soak_stats = []
@@ -1160,7 +1168,7 @@ def check(run):
 
     # static anchors (the exits the model was written from)
     abad = anchors()
-    run.cov["anchors_checked"] = 5
+    run.cov["anchors_checked"] = 6
     if abad and not run.violations:
         run.violation("tie-broken", "the code the model was written from changed shape: " + "; ".join(abad) + " — no failing history found by the monitors",
                       {"correspondence": "source anchors of PoolCap/Model.v", "anchors": abad}, found_input=False)
@@ -1174,7 +1182,7 @@ def check(run):
     run.cov["scenarios"] = len(plans)
     run.cov["model_ops"] = sum(len(p.ops) for p in plans)
     run.cov["observation_points"] = sum(len(p.obs) for p in plans)
-    run.cov["rule"] = ("scenarios = 7 scripted corner cases (wait-list rotation on a closed connection under LIFO and FIFO, F14 with pool 1 and 2, checkout_failure_limit, backend refusing connections + connect timeout + recovery) "
+    run.cov["rule"] = ("scenarios = 7 scripted corner cases (wait-list rotation on a closed connection under LIFO and FIFO, the F14 regression case with pool 1 and 2, checkout_failure_limit, backend refusing connections + connect timeout + recovery) "
                        "+ seeded random walks over {pool_size 1,2,3} x {transaction, session} x {LIFO, FIFO} x {connect_timeout 6000 ms, 300 ms}, up to 2*pool_size+1 clients, "
                        "actions chosen among those the model allows in the current state (BEGIN / single statement / statement error / intercepted batch / COMMIT / statement inside a transaction / "
                        "socket close idle, inside a transaction, while waiting / Terminate / malformed Close / server closes mid-query / server closes after half a reply / statement timeout / backend blip / waiter timeout); "
